@@ -165,7 +165,7 @@ impl Monitor for C07 {
         "cwv-direct"
     }
     fn histories(&self, tier: Tier) -> u64 {
-        tier.pick(500, 600_000)
+        tier.pick(3_000, 600_000)
     }
     fn mandatory(&self) -> Vec<&'static str> {
         vec![
